@@ -224,6 +224,12 @@ def run_saveload(ctx, g):
             cases.append((len(cases), fam))
         for _ in range(40000 if ctx.thorough else 4000):
             cases.append((len(cases), random_saved(rng)))
+    if ctx.thorough and not ctx.replay:
+        from harness import fixtures
+        sl = fixtures.slices("quantised")
+        for a, b in zip(sl, sl[1:]):
+            cases.append((len(cases), [{k: x[k] for k in ("notes", "extras", "dur")} for x in (a, b)]))
+            cases.append((len(cases), [{k: a[k] for k in ("notes", "extras", "dur")}]))
     obs = pmap(saveload, cases, chunk=200)
     for i, o in enumerate(obs):
         o["id"] = i
